@@ -121,6 +121,9 @@ pub enum Event {
     GotKv(KeyValueResult),
     GotTime(TimeResponse),
     GotPlatform(PlatformResponse),
+    // a type with TWO serde forms (a string when the format is human readable, 4 octets otherwise): the traced schema must
+    // describe the form the bincode bridge really uses
+    Addr(std::net::Ipv4Addr),
 }
 
 #[derive(Serialize, Deserialize, Debug)]
